@@ -37,7 +37,8 @@ from holopy.inference import (prior, AlphaModel, ExactModel, LimitOverlaps, Nmpf
 NUM = {"float", "float_tiny", "float_huge", "neg_zero", "int", "np_float64", "np_int64", "zero_d_array", "np_float32"}
 CPLX = {"complex", "np_complex128", "complex_neg", "np_complex_neg"}
 SEQ = {"list", "tuple", "array1d", "list_of_np"}
-PRI = {"prior", "derived_prior", "ufunc_prior", "prior_half_open", "prior_unbounded", "prior_guess_on_bound"}
+PRI = {"prior", "derived_prior", "ufunc_prior", "prior_half_open", "prior_unbounded", "prior_guess_on_bound",
+       "rdiv_prior", "rsub_prior", "neg_prior", "rpow_prior"}
 
 
 def value(kind, n=3, positive=False):
@@ -53,6 +54,8 @@ def value(kind, n=3, positive=False):
         "array1d": lambda: np.array(base), "list_of_np": lambda: [np.float64(b) for b in base],
         "prior_half_open": lambda: prior.Uniform(0, np.inf), "prior_unbounded": lambda: prior.Uniform(-np.inf, np.inf),
         "prior_guess_on_bound": lambda: prior.Uniform(1.0, 2.0, guess=1.0),
+        "rdiv_prior": lambda: 2.0 / prior.Uniform(1.0, 4.0), "rsub_prior": lambda: 5.0 - prior.Uniform(1.0, 2.0),
+        "neg_prior": lambda: -prior.Uniform(-2.0, -1.0), "rpow_prior": lambda: 2.0 ** prior.Uniform(0.0, 1.0),
         "prior": lambda: prior.Uniform(1.0, 2.0), "derived_prior": lambda: prior.Uniform(1.0, 2.0) * 2 + 0.5,
         "ufunc_prior": lambda: np.sqrt(prior.Uniform(1.0, 4.0)),
         "complex_prior": lambda: prior.ComplexPrior(prior.Uniform(1.5, 1.6), 0.01),
@@ -141,8 +144,8 @@ def dump_text(obj):
 
 
 def roundtrip(obj, target, tmp, n):
-    if target == "file":
-        p = os.path.join(tmp, "o_%d.yaml" % n)
+    if target in ("file", "file_no_extension"):
+        p = os.path.join(tmp, "o_%d.yaml" % n if target == "file" else "obj_%d" % n)
         hp.save(p, obj)
         out = hp.load(p)
         os.remove(p)
@@ -157,9 +160,9 @@ def run(ctx):
     quick = ctx.tier == "quick"
     rng = random.Random(ctx.seed)
     tmp = tempfile.mkdtemp(prefix="c15_")
-    ctx.rule = ("TLC enumerates every pair of value kinds (26 kinds: python/numpy scalars incl. extreme "
+    ctx.rule = ("TLC enumerates every pair of value kinds (30 kinds: python/numpy scalars incl. extreme "
                 "magnitudes and -0.0, complex, 0-d arrays, lists/tuples/arrays, explicit None, nested objects, "
-                "plain/derived/ufunc/complex priors) x file/stream x 1..3 cycles; each applicable vector is "
+                "plain/derived/ufunc/complex priors) x file / file without extension / stream x 1..3 cycles; each applicable vector is "
                 "replayed on 28 catalogue entries covering the exported scatterer, prior, theory, strategy and "
                 "constraint classes; models with ties via the C11 templates; distinct = (entry, kinds, target); "
                 "non-trivial = some kind is not a plain python float")
